@@ -10,6 +10,7 @@ import (
 	"fmt"
 	"net/http"
 	"net/url"
+	"sort"
 	"strings"
 	"time"
 
@@ -131,10 +132,29 @@ func (e *testEnv) credentials(u idpUser) []credential {
 		out = append(out, credential{kind: "basicbearer", auth: "Basic " + base64.StdEncoding.EncodeToString([]byte(e.idp.idToken(u, "")+":x-oauth-basic")), valid: true, user: u})
 	}
 	if o.HtpasswdFile != "" {
-		for usr, pw := range e.cfg.Htpasswd {
-			out = append(out, credential{kind: "basic", auth: "Basic " + base64.StdEncoding.EncodeToString([]byte(usr+":"+pw)), valid: true, user: idpUser{Sub: usr}})
-			out = append(out, credential{kind: "badbasic", auth: "Basic " + base64.StdEncoding.EncodeToString([]byte(usr+":wrong"+pw))})
-			break
+		users := make([]string, 0, len(e.cfg.Htpasswd))
+		for usr := range e.cfg.Htpasswd {
+			users = append(users, usr)
+		}
+		sort.Strings(users)
+		for _, usr := range users {
+			spec := e.cfg.Htpasswd[usr]
+			b64 := func(pw string) string { return "Basic " + base64.StdEncoding.EncodeToString([]byte(usr+":"+pw)) }
+			pw, usable := htpasswdPassword(spec)
+			if !usable {
+				// an entry whose hash is damaged in the file (cut line, impossible cost): no password is the right one
+				for _, try := range []string{"", "x", "hunter2", strings.TrimPrefix(spec, "raw:")} {
+					out = append(out, credential{kind: "damagedhash", auth: b64(try)})
+				}
+				continue
+			}
+			kind := "basic"
+			if strings.HasPrefix(spec, "bcrypt:") {
+				kind = "basic-bcrypt"
+			}
+			out = append(out, credential{kind: kind, auth: b64(pw), valid: true, user: idpUser{Sub: usr}})
+			out = append(out, credential{kind: "bad" + kind, auth: b64("wrong" + pw)})
+			out = append(out, credential{kind: "bad" + kind, auth: b64("")})
 		}
 	}
 	return out
@@ -172,6 +192,11 @@ func (e *testEnv) endpoints() []endpointCase {
 		{name: "remote-172.32.0.1", target: "/app/page", remote: "172.32.0.1:1"}, {name: "remote-v6-in", target: "/app/page", remote: "[2001:db8::1]:2"},
 		{name: "remote-v6-out", target: "/app/page", remote: "[2001:db9::1]:2"}, {name: "remote-ula", target: "/app/page", remote: "[fd12::1]:3"}, {name: "remote-ll", target: "/app/page", remote: "[fe80::1]:3"},
 		{name: "remote-mapped", target: "/app/page", remote: "[::ffff:10.0.0.9]:4"},
+		// a peer without a network address (net/http reports "@" for a unix-socket listener), an address without a port: no
+		// address at all is not the local host
+		{name: "remote-unix", target: "/app/page", remote: "@"}, {name: "remote-noport", target: "/app/page", remote: "127.0.0.1"},
+		{name: "remote-loopback", target: "/app/page", remote: "127.0.0.1:9"}, {name: "remote-v6-loopback", target: "/app/page", remote: "[::1]:9"},
+		{name: "authonly-unix", target: p + "/auth", remote: "@"},
 		// a header CLAIMING another method is not the method: no preflight exemption, no method-qualified rule
 		{name: "fake-preflight-xfm", target: "/app/page", header: http.Header{"X-Forwarded-Method": {"OPTIONS"}}},
 		{name: "fake-preflight-override", target: "/app/page", method: "POST", body: "a=b", header: http.Header{"X-Http-Method-Override": {"OPTIONS"}, "X-Method-Override": {"OPTIONS"}, "X-Original-Method": {"OPTIONS"}}},
@@ -206,7 +231,8 @@ func authzConfigs(r *rng, n int) []proxyCfg {
 		{TrustedIPs: []string{"192.168.0.0/16", "10.0.0.0/24", "172.16.0.0/12", "2001:db8::/32", "fd00::/8"}, SkipPreflight: true},
 		{TrustedIPs: []string{"10.0.0.0/24", "192.168.0.0/16", "fd00::/8", "2001:db8::/32", "127.0.0.1"}, Redis: true, ReverseProxy: false},
 		{SkipJwtBearer: true},
-		{Htpasswd: map[string]string{"bob": "hunter2"}, HtpasswdGroups: []string{"staff"}},
+		{Htpasswd: map[string]string{"bob": "hunter2", "carol": "bcrypt:s3cret", "dave": "raw:$2y$05$cut.short", "erin": "raw:$2a$99$abcdefghijklmnopqrstuuJpVMfXwWu1uC5pKOEnjJq0Y4qCFAG0G",
+			"frank": "raw:$2b$04$", "gina": "raw:{SHA}not-base64-of-anything"}, HtpasswdGroups: []string{"staff"}},
 		{EmailDomains: []string{"example.org"}},
 		{AllowedGroups: []string{"qa", "admins"}},
 		{AllowedGroups: []string{"dev"}, CookieRefresh: time.Hour},
